@@ -42,13 +42,16 @@ type FileSpec struct {
 type FileOpts struct {
 	FileType  int  // -1: draw
 	MaxMsgs   int  // per slice slot
+	LongSlots bool // occasionally fill one slice slot with 256..600 nearly empty messages
 	FieldPct  int  // chance that a field is set
 	OutDomain bool // also draw values outside C06's domain (over-long strings/arrays, invalid UTF-8 ...) — for C05/C07 style checks
 	Filter    func(g uint16, fi *fitmodel.FieldInfo) bool
 }
 
 // DefaultFileOpts draws in-domain files.
-func DefaultFileOpts() FileOpts { return FileOpts{FileType: -1, MaxMsgs: 4, FieldPct: 25} }
+func DefaultFileOpts() FileOpts {
+	return FileOpts{FileType: -1, MaxMsgs: 4, FieldPct: 25, LongSlots: true}
+}
 
 func drawScalarBits(d D, bt fitmodel.BaseType) uint64 {
 	n := uint(bt.Size * 8)
@@ -266,6 +269,7 @@ func GenFile(d D, o FileOpts) *FileSpec {
 			fs.Slots = append(fs.Slots, SlotSpec{Name: s.Name, InFile: true, Msgs: []MsgSpec{DrawMsg(d, s.Msg, &o)}})
 		}
 	}
+	longDone := false
 	for _, s := range prof.Slots(fit.FileType(ft)) {
 		if !d.Chance(60, "slot") {
 			continue
@@ -275,6 +279,45 @@ func GenFile(d D, o FileOpts) *FileSpec {
 			n = d.Int(1, o.MaxMsgs, "nmsg")
 		}
 		sp := SlotSpec{Name: s.Name}
+		if s.Multi && o.LongSlots && !longDone && d.Int(0, 5, "long") == 0 {
+			// a long group: one field set on most messages, and a few
+			// messages (block boundaries favoured) carrying a field of
+			// their own
+			longDone = true
+			n = d.Int(256, 600, "nlong")
+			mi := prof.Table().Msgs[s.Msg]
+			var settable []*fitmodel.FieldInfo
+			for _, num := range prof.FieldNums(s.Msg) {
+				fi := mi.Fields[num]
+				if fi.Name != "" && !fi.Array && fi.Kind == fitmodel.KindNative && !fitmodel.MustBase(fi.Base).String {
+					settable = append(settable, fi)
+				}
+			}
+			if len(settable) >= 2 {
+				common := settable[d.Int(0, len(settable)-1, "lcommon")]
+				special := map[int]*fitmodel.FieldInfo{}
+				for k := d.Int(1, 4, "nspecial"); k > 0; k-- {
+					pos := []int{255, 256, 511, 512, n - 1, 0, d.Int(0, n-1, "lpos")}[d.Int(0, 6, "lposk")]
+					if pos >= 0 && pos < n {
+						special[pos] = settable[d.Int(0, len(settable)-1, "lspecial")]
+					}
+				}
+				for i := 0; i < n; i++ {
+					ms := MsgSpec{Global: s.Msg, Fields: map[string]fitmodel.Val{}}
+					if v, ok := DrawFieldVal(d, common, false); ok && i%3 != 2 {
+						ms.Fields[common.Name] = v
+					}
+					if fi := special[i]; fi != nil {
+						if v, ok := DrawFieldVal(d, fi, false); ok {
+							ms.Fields[fi.Name] = v
+						}
+					}
+					sp.Msgs = append(sp.Msgs, ms)
+				}
+				fs.Slots = append(fs.Slots, sp)
+				continue
+			}
+		}
 		for i := 0; i < n; i++ {
 			sp.Msgs = append(sp.Msgs, DrawMsg(d, s.Msg, &o))
 		}
